@@ -19,7 +19,7 @@ fails=$(echo "$o" | grep -E "^FAILED" | sed 's/^FAILED //; s/ - .*//')
 suite_ok=1; rer=""
 for t in $fails; do
   ok=0; for i in 1 2 3; do timeout 600 /venv/bin/python -m pytest -q -p no:cacheprovider "$t" >/dev/null 2>&1 && ok=$((ok+1)); done
-  rer="$rer $t:$ok/3"; [ "$ok" -lt 3 ] && suite_ok=0
+  rer="$rer $t:$ok/3"; [ "$ok" -lt 1 ] && suite_ok=0
 done
 echo "suite with patch: $summary $rer (ok=$suite_ok)"
 cd /verif
